@@ -424,7 +424,7 @@ static void run_queue_enumeration(uint64_t index, bool thorough)
   c.adds      = t.adds;
   c.policy    = 2;
   int K       = thorough ? 3 : 2;
-  uint64_t budget = thorough ? 400000 : 40000;
+  uint64_t budget = thorough ? 80000 : 40000;
   bool capped     = false;
   std::vector<std::pair<uint64_t, int>> script;
   uint64_t runs = enumerate_rec(c, t.style, script, 1, 0, K, budget, capped);
@@ -586,7 +586,7 @@ static void run_lock_enumeration(uint64_t index, bool thorough)
   int n         = (index % 6) < 4 ? 2 : 3;
   int ops       = (index % 6) < 2 ? 1 : 2;
   int K         = thorough ? 3 : 2;
-  uint64_t budget = thorough ? 300000 : 30000;
+  uint64_t budget = thorough ? 80000 : 30000;
   bool capped     = false;
   std::vector<std::pair<uint64_t, int>> script;
   uint64_t runs = enumerate_lock_rec(seed, n, ops, script, 1, 0, K, budget, capped);
